@@ -38,6 +38,10 @@ CLAIMS = {
          "cast<float>() needs the single-precision instantiation (in progress); threshold behaviour at 1 ulp is tied by the correspondence only"),
  "C08": ("proof", "Exact arithmetic, no bound on the history: approxSqrtInv is a cubic contraction of the squared-norm deviation (explicit residual polynomial); compose multiplies squared norms and renormalises iff the deviation exceeds eps, so |norm^2-1| <= eps is an invariant of EVERY finite history of compose/inverse steps (induction over the operation list, proved for SO2 over every ordered field), under which the constructor check never fires - no exception with assertions enabled, deviation bounded independently of the length; a per-step rounding perturbation e moves the bound by |e| only. The floating-point part is tied by lock-step histories: random walks and adversarial repetition of one operation over exp/compose/inverse/between/rplus/+=/*=/lplus/slerp/average, every group, both build configurations, accepted-but-imperfect elements injected to exercise the renormalisation branch; after every step: bit-exact agreement with the model, finite, |norm-1| < eps, no exception.",
          "that each floating-point operation contributes only a few ulp of drift is measured by the histories, not proved; the history induction is proved for SO2 (the quaternion groups use the same recurrence via sqn(pq) = sqn(p) sqn(q))"),
+ "C09": ("proof", "For every group (any record of primitives): requesting optional Jacobians never changes the value of rplus/lplus/rminus/lminus/between, and each Jacobian is independent of the other request — including lminus, whose two source code paths for J_t_mb are proved equal; the model's operations are functions (no state), so determinism is definitional there. On the implementation, bit for bit and in both build configurations: every op x every mask x {owning, Map, Map<const>}; operands echoed back unchanged after the call; every call re-issued in shuffled order after all other activity in the same process (first use of every lazily initialised static included); aliased forms X=X*X, X=X.compose(X), X*=X, X=X.inverse(), X=X.between(Y), X=X+t, X=X.lplus(t) against the unaliased result; every Jacobian bound to a block of a NaN-filled larger matrix writes exactly that block.",
+         "C++ aliasing / Eigen evaluation order and the statics are observed (exhaustively over ops and masks, sampled over inputs), not proved"),
+ "C10": ("proof", "Buffer/view model proved for every buffer, offset, length: a write through a view changes exactly the viewed window and keeps the length, reading back returns exactly what was written (copy/cross-kind assignment exact), a mutating member through a view equals the member on an owning copy of the window and leaves the rest untouched. On the implementation: every operation with owning / Map / Map<const> operands placed at an odd (unaligned) offset between guard zones gives bit-identical answers and intact guards; writes through mutable views (+=, *=, assignment of inverse/rplus/compose results) land in the window only.",
+         "byte-level behaviour of Eigen::Map (alignment assumptions, vectorised loads) is runtime; the ASan build is run by the thorough tier"),
 }
 
 checks = []
